@@ -21,7 +21,8 @@ META = {
              'with the two field names under one uniform convention; one node per attack step with its attributes and one '
              'relationship per edge; get_model served from the recording (two-query emulation with per-pattern relationship '
              'uniqueness) must reconstruct the same assets and links; non-trivial = model with >= 2 assets and >= 1 link; '
-             'distinct = digest(spec, model)'),
+             'distinct = digest(spec, model)'
+             '; added strata: 2-4 attackers with interleaved compromises, statuses on steps that are no defense, names whose joined forms coincide'),
     'assumptions': ['the stand-in emulates only the two Cypher queries the module issues (S11); a real server is not observed',
                     'py2neo Node / Relationship / Subgraph as libraries'],
     'shards': {'quick': 8, 'thorough': 16},
